@@ -1,2 +1,33 @@
-(* C10 - property statements (theorems are being added) *)
-From Asherah Require Import Envelope.Session.
+(* C10 - transient plaintext key copies on the heap are wiped before the call returns.  Model: Envelope/Wipe.v - the
+   key-unwrapping sites as straight-line programs over a table of heap buffers, every later step allowed to fail.
+   For EVERY choice of failing steps (and, for the AWS plugins, every list of regions with arbitrary KMS / AEAD outcomes):
+   every buffer that held key plaintext is zero at return, except the system-key buffer DecryptKey hands to its caller, which
+   the caller passes to NewCryptoKey (wiped there on success and on failure).
+   Partial: the model is statement-level, not executable against the code; it is tied to the code by the monitor that re-reads
+   every such buffer after the public call returns, under the same failure choices (env and kms harnesses). *)
+From Asherah Require Import Envelope.Wipe.
+From Coq Require Import List.
+Import ListNotations.
+
+Theorem C10_decrypt_row_wipes_data_key : forall key_fails data_fails t,
+  all_clean t -> all_clean (snd (decrypt_row key_fails data_fails t)).
+Proof. exact decrypt_row_wipes. Qed.
+Print Assumptions C10_decrypt_row_wipes_data_key.
+
+Theorem C10_key_from_record_wipes_plaintext : forall unwrap_fails factory_fails t,
+  all_clean t -> all_clean (snd (key_from_ekr unwrap_fails factory_fails t)).
+Proof. exact key_from_ekr_wipes. Qed.
+Print Assumptions C10_key_from_record_wipes_plaintext.
+
+Theorem C10_aws_encrypt_key_wipes_data_key : forall generate_fails aead_fails marshal_fails t,
+  all_clean t -> all_clean (snd (aws_encrypt_key generate_fails aead_fails marshal_fails t)).
+Proof. exact aws_encrypt_key_wipes. Qed.
+Print Assumptions C10_aws_encrypt_key_wipes_data_key.
+
+Theorem C10_aws_decrypt_key_wipes_data_keys : forall regions t, all_clean t ->
+  match aws_decrypt_key regions t with
+  | (None, t') => all_clean t'
+  | (Some sk, t') => forall i, i <> sk -> nth i t' false = false
+  end.
+Proof. exact aws_decrypt_key_wipes. Qed.
+Print Assumptions C10_aws_decrypt_key_wipes_data_keys.
